@@ -55,6 +55,7 @@ def plan(tier, seed):
         shards.append({'name': 'hash_%d' % hs, 'kind': 'hash', 'hashseed': hs,
                        'n': 120 if tier == 'quick' else 600})
     shards.append({'name': 'split', 'kind': 'split'})
+    shards.append({'name': 'tie', 'kind': 'tie', 'n': 200 if tier == 'quick' else 3000, 'seed': seed * 1000 + 183})
     shards.append({'name': 'sizegrid', 'kind': 'sizegrid', 'n': 150 if tier == 'quick' else 2500, 'N': 12,
                    'seed': seed * 1000 + 181})
     shards.append({'name': 'large', 'kind': 'large', 'sizes': [1100, 2300] if tier == 'quick' else
@@ -128,6 +129,9 @@ def sweep_case(case, rec, ssj, trace=None):
     entry = case['entry']
     call = make_entry_call(rng, entry)
     tag = '%s ' % entry
+    if case.get('sim') and call['api'] == 'apply_matcher' and call.get('tok') is not None:
+        call['sim'] = case['sim']
+        call['comp_op'], call['threshold'], call['out_sim_score'] = '>=', 0.3, True
     try:
         base = T.exec_call(ssj, call)
     except Exception as e:
@@ -318,6 +322,157 @@ def large_case(case, rec, ssj):
     return {'rows': len(base), 'call': call}
 
 
+def tie_case(case, rec, ssj):
+    """Row permutations on tables FULL of frequency ties: every token occurs exactly twice in each
+    table, pairs of tokens occur together in several rows and are first met in different rows.  The
+    rank of a token must not depend on where in the table it is first seen, so Prefix / Position /
+    Suffix filter_tables (whose superfluous candidates follow the token order) and the joins must
+    return the same rows for every row order (same chunking: n_jobs=1)."""
+    rng = random.Random(case['seed'])
+    V = case.get('V', 8)
+    toks = ['t%d' % i for i in range(V)]
+
+    def table(side):
+        # each token twice: rows are pairs / triples drawn from two shuffled copies of the vocabulary
+        bag = toks + toks
+        rng.shuffle(bag)
+        rows, i = [], 0
+        while i < len(bag):
+            k = rng.choice([2, 3, 3, 4])
+            r = []
+            for t in bag[i:i + k]:
+                if t not in r:
+                    r.append(t)
+            rows.append(r)
+            i += k
+        return T.table_spec([side + 'id', side + 'attr'], [[x, ' '.join(r)] for x, r in enumerate(rows)],
+                            dtypes={side + 'attr': 'object'})
+    L, R = table('l'), table('r')
+    kind = case['kind']
+    m = rng.choice(['JACCARD', 'COSINE', 'DICE'])
+    t = rng.choice([0.3, 0.4, 0.5, 0.6])
+    if kind == 'join':
+        call = {'api': T.MEASURE_JOIN[m], 'threshold': t}
+    else:
+        call = {'api': 'filter_tables', 'filter': {'kind': kind, 'measure': m, 'threshold': t}}
+    call.update({'ltable': L, 'rtable': R, 'l_key': 'lid', 'r_key': 'rid', 'l_attr': 'lattr', 'r_attr': 'rattr',
+                 'tok': {'kind': 'ws', 'return_set': True}, 'n_jobs': 1, 'warm': None, 'positional': False})
+    tag = '%s(%s, %r) on tables of frequency ties: ' % (kind, m, t)
+    try:
+        base = rows_of(T.exec_call(ssj, call))
+    except Exception as e:
+        rec.add('raised', 'tie %s: %s' % (type(e).__name__, str(e)[:80]))
+        return {'rows': 0}
+    for side, how in (('ltable', 'reverse'), ('rtable', 'reverse'), ('ltable', 'perm'), ('rtable', 'perm'),
+                      ('ltable', 'perm')):
+        c = dict(call)
+        c[side] = permute_table(rng, call[side], how)
+        try:
+            got = rows_of(T.exec_call(ssj, c))
+        except Exception as e:
+            rec.violation('raises', tag + 'variant %s/%s raised %s' % (side, how, type(e).__name__), case=case)
+            continue
+        rec.count('presentation_calls')
+        rec.count('tie_table_variants')
+        if got != base:
+            rec.violation('presentation', tag + 'permuting the rows of the %s (%s) changes the result: only in '
+                          'the variant %r; only in the original %r' % (side, how, list((got - base).elements())[:2],
+                                                                       list((base - got).elements())[:2]), case=case)
+            break
+    return {'rows': sum(base.values())}
+
+
+def allperm_case(case, rec, ssj):
+    """EVERY row order of a small left table whose rows have very different token counts (including
+    a value without tokens and a missing one): running minima / maxima, 'first row seen' state and
+    sentinels in the indexes must not depend on the order in which the rows arrive."""
+    import itertools
+    rng = random.Random(case['seed'])
+    sizes = rng.choice([[3, 0, 5, 1], [2, 0, 4, 7, 1], [0, 3, 6, 2], [5, 0, 0, 2, 9], [1, 4, 0, 8, 3]])
+    toks = ['w%d' % i for i in range(10)]
+    lvals = [' '.join(toks[:k]) if k else rng.choice(['', '  ']) for k in sizes]
+    if rng.random() < 0.4:
+        lvals.append(None)
+    rvals = [' '.join(toks[:k]) for k in range(1, 9)] + ['', 'zz']
+    R = T.table_spec(['rid', 'rattr'], [[100 + j, v] for j, v in enumerate(rvals)], dtypes={'rattr': 'object'})
+    kind = case['kind']
+    m = rng.choice(['JACCARD', 'COSINE', 'DICE'])
+    t = rng.choice([0.3, 0.5, 0.6, 0.8])
+    base_rows = None
+    n_orders = 0
+    for order in itertools.permutations(range(len(lvals))):
+        L = T.table_spec(['lid', 'lattr'], [[i, lvals[i]] for i in order], dtypes={'lattr': 'object'})
+        if kind == 'join':
+            call = {'api': T.MEASURE_JOIN[m], 'threshold': t, 'allow_empty': case.get('allow_empty', True)}
+        else:
+            call = {'api': 'filter_tables', 'filter': {'kind': kind, 'measure': m, 'threshold': t,
+                                                       'allow_empty': case.get('allow_empty', True)}}
+        call.update({'ltable': L, 'rtable': R, 'l_key': 'lid', 'r_key': 'rid', 'l_attr': 'lattr', 'r_attr': 'rattr',
+                     'tok': {'kind': 'ws', 'return_set': True}, 'n_jobs': 1, 'warm': None, 'positional': False})
+        try:
+            rows = rows_of(T.exec_call(ssj, call))
+        except Exception as e:
+            rec.violation('raises', '%s on left row order %r raised %s: %s' % (kind, order, type(e).__name__,
+                                                                              str(e)[:120]), case=case)
+            return {'rows': 0}
+        n_orders += 1
+        if base_rows is None:
+            base_rows = rows
+        elif rows != base_rows:
+            rec.violation('presentation', '%s(%s, %r): left rows with token counts %r in the order %r give another '
+                          'result than in the order given first: only now %r; only before %r'
+                          % (kind, m, t, sizes, order, list((rows - base_rows).elements())[:2],
+                             list((base_rows - rows).elements())[:2]), case=case)
+            break
+    rec.count('presentation_calls', n_orders)
+    rec.count('row_orders_enumerated', n_orders)
+    return {'rows': sum(base_rows.values()) if base_rows else 0}
+
+
+def mp_case(case, rec, ssj):
+    """apply_matcher under joblib's 'multiprocessing' backend (bound methods travel through the
+    library's own copyreg hook there) with the bound method of a CONFIGURED measure object: the
+    workers must compute what the n_jobs=1 run computes."""
+    rng = random.Random(case['seed'])
+    L, R, tok = gen.random_table_pair(rng, tok={'kind': 'ws', 'return_set': True}, max_rows=8, missing=0.0,
+                                      key_kind='int', index_kind='range')
+    for spec, side in ((L, 'l'), (R, 'r')):
+        spec.pop('dup_label', None)
+        while T.spec_len(spec) < 3:
+            for c in spec['cols']:
+                dt = str(spec['dtypes'].get(c))
+                spec['data'][c].append(len(spec['data'][c]) + 50 if c == side + 'id' else
+                                       ('a b c' if c == side + 'attr' else
+                                        (1 if dt.startswith('int') else (0.5 if dt.startswith('float') else
+                                                                         (True if dt == 'bool' else 'v')))))
+    C = gen.random_candset(rng, L, R, 'lid', 'rid', size=T.spec_len(L) * T.spec_len(R), extra_cols=False,
+                           index_kind='range')
+    call = {'api': 'apply_matcher', 'ltable': L, 'rtable': R, 'candset': C, 'c_l_key': 'l_lid', 'c_r_key': 'r_rid',
+            'l_key': 'lid', 'r_key': 'rid', 'l_attr': 'lattr', 'r_attr': 'rattr', 'tok': tok, 'sim': case['sim'],
+            'threshold': 0.0, 'comp_op': '>=', 'allow_missing': False, 'out_sim_score': True, 'n_jobs': 1,
+            'warm': None, 'positional': False}
+    try:
+        base = rows_of(T.exec_call(ssj, call))
+    except Exception as e:
+        rec.add('raised', 'mp %s: %s' % (type(e).__name__, str(e)[:80]))
+        return {'rows': 0}
+    for nj in (2, 3):
+        try:
+            got = rows_of(T.exec_call(ssj, dict(call, n_jobs=nj, backend='multiprocessing')))
+        except Exception as e:
+            rec.violation('raises', "apply_matcher(sim=%s) under the 'multiprocessing' backend, n_jobs=%d raised "
+                          '%s: %s' % (case['sim'], nj, type(e).__name__, str(e)[:160]), case=case)
+            continue
+        rec.count('sweep_calls')
+        if got != base:
+            rec.violation('n_jobs', "apply_matcher(sim=%s) under the 'multiprocessing' backend, n_jobs=%d: only in "
+                          'the parallel result %r; only with n_jobs=1 %r' % (
+                              case['sim'], nj, list((got - base).elements())[:2], list((base - got).elements())[:2]),
+                          case=case)
+            break
+    return {'rows': sum(base.values())}
+
+
 def sizegrid_case(case, rec, ssj):
     """SizeFilter / OverlapFilter.filter_tables (whose rows must not depend on n_jobs) on a grid of
     token counts: left rows with 1..N tokens, right rows with 1..N tokens twice (the right table is
@@ -362,6 +517,12 @@ def run_case(case, rec, ssj=None):
     ssj = ssj or env.load()
     if case['gen'] == 'sizegrid':
         return sizegrid_case(case, rec, ssj)
+    if case['gen'] == 'mp':
+        return mp_case(case, rec, ssj)
+    if case['gen'] == 'tie':
+        return tie_case(case, rec, ssj)
+    if case['gen'] == 'allperm':
+        return allperm_case(case, rec, ssj)
     if case['gen'] == 'large':
         return large_case(case, rec, ssj)
     if case['gen'] == 'chunk':
@@ -407,10 +568,15 @@ def run_shard(shard, rec):
                        limit=2)
         trace.detach()
     elif kind == 'loky':
+        for i, sim in enumerate(['user_tversky', 'user_tversky', 'JACCARD']):
+            case = {'gen': 'mp', 'seed': shard['seed'] * 100000 + 900 + i, 'sim': sim}
+            st = mp_case(case, rec, ssj)
+            rec.case(sig=('mp', sim, case['seed']), nontrivial=st['rows'] > 0)
+            rec.count('multiprocessing_backend_cases')
         for i in range(shard['n']):
             entry = ENTRY[i % len(ENTRY)]
             case = {'gen': 'chunk', 'entry': entry, 'seed': shard['seed'] * 100000 + i,
-                    'backend': 'loky', 'n_jobs_list': [2, 3]}
+                    'backend': 'loky' if i % 4 else 'multiprocessing', 'n_jobs_list': [2, 3]}
             st = sweep_case(case, rec, ssj)
             rec.case(sig=('loky', entry, case['seed']), nontrivial=st['rows'] > 0)
     elif kind == 'pres':
@@ -470,6 +636,19 @@ def run_shard(shard, rec):
                 d = 'raised:' + type(e).__name__
             rec.add('dg_%04d' % i, d)
             rec.case(sig=('hash', shard['hashseed'], i), nontrivial=True)
+    elif kind == 'tie':
+        for i in range(shard['n']):
+            case = {'gen': 'tie', 'kind': ('PrefixFilter', 'PositionFilter', 'SuffixFilter', 'join')[i % 4],
+                    'V': (6, 8, 12)[i % 3], 'seed': shard['seed'] * 100000 + i}
+            st = tie_case(case, rec, ssj)
+            rec.case(sig=('tie', case['kind'], case['seed']), nontrivial=st['rows'] > 0, n=6)
+        for i in range(max(8, shard['n'] // 12)):
+            case = {'gen': 'allperm', 'kind': ('join', 'PositionFilter', 'SizeFilter', 'PrefixFilter')[i % 4],
+                    'allow_empty': i % 3 != 0, 'seed': shard['seed'] * 100000 + 5000 + i}
+            st = allperm_case(case, rec, ssj)
+            rec.case(sig=('allperm', case['kind'], case['seed']), nontrivial=st['rows'] > 0, n=24)
+        rec.sample({'workload': 'row permutations on tables of frequency ties; every row order of small left '
+                    'tables with token counts such as [3, 0, 5, 1]'}, limit=1)
     elif kind == 'sizegrid':
         for i in range(shard['n']):
             case = {'gen': 'sizegrid', 'N': shard['N'], 'measure': ('JACCARD', 'COSINE', 'DICE')[i % 3],
